@@ -376,6 +376,97 @@ def report_sanitizer(run, info, calls):
 # main
 # --------------------------------------------------------------------------
 
+def large_distribute(run, rng, cap, shim_of):
+    """One supercell with more than 128 (and more than any size threshold found in the pragma inventory's `if` clauses)
+    atoms, full layout, force constants distributed through the public path; bitwise across thread counts and builds.
+    The kernel call is captured, so it also goes through the replay / footprint / sanitizer machinery."""
+    import phonopy
+
+    name, sm = rng.choice([("mono_P", [4, 4, 5]), ("triclinic", [4, 4, 3]), ("mono_P", [5, 4, 4])])
+    cell, _ = gen.make_cell(name)
+    out = {}
+    for label, variant, t in (("omp-4", "omp", 4), ("omp-1", "omp", 1), ("omp-8", "omp", 8), ("omp-3", "omp", 3), ("ser", "ser", 1)):
+        shim = shim_of(variant)
+        U.set_threads(t)
+        ph = phonopy.Phonopy(cell, supercell_matrix=np.diag(sm), primitive_matrix="P", log_level=0)
+        ph.generate_displacements(distance=0.03)
+        n, nd = len(ph.supercell), len(ph.dataset["first_atoms"])
+        ph.forces = np.random.RandomState(12345).standard_normal((nd, n, 3))
+        if label == "omp-4":
+            shim.trace = cap
+        ph.produce_force_constants(show_drift=False)
+        shim.trace = None
+        out[label] = _hash(ph.force_constants)
+        run.count("large distribute_fc2 public runs (%d atoms)" % n, section="oracle")
+    info = dict(cell=name, supercell=sm, atoms=n, layout="full")
+    for label, h in out.items():
+        if h != out["omp-1"]:
+            run.violation("Phonopy.produce_force_constants", "thread-count-dependent" if label != "ser" else "build-dependent",
+                          "force constants of a %d-atom supercell differ bitwise between 1 OpenMP thread and %s" % (n, label), dict(info, config=label))
+    shim_of("omp")
+    U.set_threads(4)
+    return n
+
+
+def nac_lowsym_probes(run, rng, thorough):
+    """Low-symmetry (P1) cell with random NON-symmetric Born tensors (sum rule imposed) and a symmetric dielectric tensor:
+    derivative of the dynamical matrix C vs `_run_py` (Wang and Gonze-Lee objects), Wang dynamical matrix C vs the
+    documented formula evaluated with the in-repository Python dynamical matrix."""
+    import phonopy
+    from phonopy.harmonic.derivative_dynmat import DerivativeOfDynamicalMatrix
+    from phonopy.harmonic.dynamical_matrix import DynamicalMatrix
+
+    cell, _ = gen.make_cell("triclinic")
+    for method in ("wang", "gonze"):
+        ph = phonopy.Phonopy(cell, supercell_matrix=np.diag(rng.choice([[2, 1, 1], [1, 2, 1], [1, 1, 2]])), primitive_matrix="P", log_level=0)
+        fc = gen.pair_fc(ph.supercell, 1.45 * nn_distance(ph.primitive))
+        ph.force_constants = fc
+        n = len(ph.primitive)
+        z = np.array([[[rng.randint(-12, 12) / 8.0 for _ in range(3)] for _ in range(3)] for _ in range(n)]) + np.array([np.eye(3) * (1.5 if i % 2 == 0 else -1.5) for i in range(n)])
+        z -= z.mean(axis=0)
+        a_ = np.array([[rng.randint(-4, 4) / 8.0 for _ in range(3)] for _ in range(3)])
+        eps = np.eye(3) * 2.5 + a_ @ a_.T
+        ph.nac_params = {"born": z, "dielectric": eps, "factor": 14.4, "method": method}
+        dmo = ph.dynamical_matrix
+        zz = np.array(dmo.born)
+        asym = float(np.abs(zz - zz.transpose(0, 2, 1)).max())
+        for trial in range(3 if thorough else 2):
+            q = np.array([rng.randint(1, 7) / 16.0 * rng.choice([-1, 1]) for _ in range(3)])
+            info = dict(cell="triclinic", supercell=np.array(ph.supercell_matrix).tolist(), nac=method, q=q.tolist(), born=zz.tolist(), dielectric=np.array(dmo.dielectric_constant).tolist())
+            dd = DerivativeOfDynamicalMatrix(dmo)
+            dd.run(q)
+            c_ = dd.d_dynamical_matrix.copy()
+            dd.run(q, lang="Py")
+            p_ = dd.d_dynamical_matrix.copy()
+            ok, dlt = _close(c_, p_)
+            run.count("ddm NAC (%s) non-symmetric Born probes" % method, section="oracle")
+            run.case(("ddm-nac", method, q.tobytes(), zz.tobytes()), nontrivial=asym > 1e-3)
+            if not ok:
+                run.violation("DerivativeOfDynamicalMatrix.run", "ddm-nac-C-vs-Py", "C derivative of the dynamical matrix with NAC (%s object) differs from _run_py by %.3g for non-symmetric Born tensors" % (method, dlt), info)
+            if method == "wang":
+                # D_ij(q) with fc[i,k] -> fc[i,k] + (4 pi/V * unit) / N / (q eps q) * (q Z_i)(q Z_j)^T for every image k of j
+                Dc = np.array(ph.get_dynamical_matrix_at_q(q))
+                prim = ph.primitive
+                qc = np.linalg.inv(prim.cell) @ q
+                A = qc @ zz                                   # (n,3): sum_k q_k Z[i][k][a]
+                N = len(ph.supercell) // n
+                const = dmo.nac_factor / N / (qc @ np.array(dmo.dielectric_constant) @ qc)
+                fc2 = fc.copy()
+                s2p, p2s = prim.s2p_map, prim.p2s_map
+                for i in range(n):
+                    for k in range(len(ph.supercell)):
+                        j = list(p2s).index(s2p[k])
+                        fc2[p2s[i], k] += const * np.outer(A[i], A[j])
+                plain = DynamicalMatrix(ph.supercell, prim, fc2)
+                plain.run(q, lang="Py")
+                ok, dlt = _close(Dc, np.array(plain.dynamical_matrix))
+                run.count("Wang NAC dynamical matrix vs formula", section="oracle")
+                if not ok:
+                    run.violation("DynamicalMatrixWang.run", "wang-C-vs-formula", "Wang NAC dynamical matrix differs from the documented formula by %.3g (non-symmetric Born tensors)" % dlt, info)
+            else:
+                ph.run_qpoints([q, [0, 0, 0]], nac_q_direction=[1, 0, 0])   # Gonze-Lee kernels with these tensors are captured
+
+
 def main(run):
     rng = run.rng
     thorough = run.tier == "thorough"
@@ -472,6 +563,25 @@ def main(run):
         run.count("svecs %s" % ("dense" if cfg["dense"] else "sparse"))
         run.count("fc %s" % ("compact" if cfg["compact"] else "full"))
         run.count("nac %s" % cfg["nac"])
+    # ---- kernels with size-dependent behaviour: one supercell beyond every threshold, through the public path
+    thresholds = []
+    for r in inv:
+        for m_ in re.finditer(r"(\w+)\s*(>=|>|<=|<)\s*(\d+)", r.get("if") or ""):
+            thresholds.append(dict(function=r["function"], var=m_.group(1), op=m_.group(2), value=int(m_.group(3))))
+    run.cov["correspondence"]["pragma_if_size_thresholds"] = thresholds
+
+    def shim_of(variant):
+        return U.switch_build(variant)
+
+    nbig = large_distribute(run, rng, cap, shim_of)
+    shim_omp = common._STATE["shim"]
+    for th in thresholds:
+        if th["value"] >= nbig:
+            run.broke("correspondence", "a pragma `if` clause has a size threshold (%s %s %d) that no scenario exceeds" % (th["var"], th["op"], th["value"]), th)
+    # ---- NAC kernels with non-symmetric Born tensors (captured as well)
+    shim_omp.trace = cap
+    nac_lowsym_probes(run, rng, thorough)
+    shim_omp.trace = None
     run.sample(dict(kind="scenario", **cfgs[0]))
     for k in U.NUMERICAL + U.NON_NUMERICAL:
         run.cov["distribution"]["calls %s" % k] = cap.count.get(k, 0)
